@@ -35,6 +35,7 @@ func c01Oracle(r *rcRun) {
 }
 
 func runC01(c *Ctx) {
+	c01SwapDuringTask(c)
 	type fam struct {
 		name   string
 		n      int
@@ -57,17 +58,18 @@ func runC01(c *Ctx) {
 	fams := []fam{
 		{name: "N2.F1", n: 2, bound: vrt.Budget{F: 1}, faults: conn, keep: []bool{true}, phases: []byte{'B', 'S', 'N', 'O', 'H'}, kinds: []string{"p1", "p2", "sub", "unsub"}},
 		{name: "N2.F1.nosession", n: 2, bound: vrt.Budget{F: 1}, faults: conn, keep: []bool{false}, phases: []byte{'B', 'N', 'H'}, kinds: []string{"p0", "p1", "sub"}},
-		{name: "N2.F2", n: 2, bound: vrt.Budget{F: 2}, faults: env.FaultSet{LostClose: true, AckLost: true, ConnRefuse: true}, keep: []bool{true}, phases: []byte{'B', 'H'}, kinds: []string{"p1", "p2"}},
-		{name: "N2.F1.P1.S1", n: 2, bound: vrt.Budget{F: 1, P: 1, S: 1, Total: 2}, faults: env.FaultSet{LostClose: true, AckLost: true}, keep: []bool{true}, phases: []byte{'B', 'N'}, kinds: []string{"p1", "p2"}},
 		{name: "manual.N2.F1", n: 2, bound: vrt.Budget{F: 1}, faults: conn, keep: []bool{true, false}, phases: []byte{'B', 'N', 'O', 'C'}, kinds: []string{"p1", "p2", "sub"}, manual: true},
 		{name: "N2.F1.connect-ctx-cancelled", n: 2, bound: vrt.Budget{F: 1}, faults: base, keep: []bool{true}, phases: []byte{'S', 'N', 'O'}, kinds: []string{"p1", "p2", "sub", "unsub"}, cancel: true},
 		{name: "N2.F1.silent-link.response-timeout", n: 2, bound: vrt.Budget{F: 1}, faults: env.FaultSet{Silent: true, SilentDrop: true, OnlyTypes: map[byte]bool{env.PUBLISH: true, env.PUBREL: true, env.SUBSCRIBE: true, env.UNSUBSCRIBE: true}}, keep: []bool{true}, phases: []byte{'S', 'N'}, kinds: []string{"p1", "p2", "sub", "unsub"}, rtmo: 2 * time.Second},
 		{name: "N2.F1.reentrant-callbacks", n: 2, bound: vrt.Budget{F: 1}, faults: base, keep: []bool{true}, phases: []byte{'B', 'S', 'N'}, kinds: []string{"p1", "p2", "sub"}, reent: true},
-		{name: "N2.F2.eof-write-errors", n: 2, bound: vrt.Budget{F: 2}, faults: env.FaultSet{WriteErr: true, LostClose: true}, keep: []bool{true}, phases: []byte{'B', 'S', 'N'}, kinds: []string{"p1", "p2", "sub", "unsub"}, eofw: true},
 		{name: "N2.F1.slow-onerror", n: 2, bound: vrt.Budget{F: 1}, faults: env.FaultSet{LostClose: true, AckLost: true}, keep: []bool{true}, phases: []byte{'S', 'N', 'O'}, kinds: []string{"p1", "p2", "sub"}, slowOE: 2500 * time.Millisecond},
 		{name: "N2.F1.S1", n: 2, bound: vrt.Budget{F: 1, S: 1, Total: 2}, faults: base, keep: []bool{true}, phases: []byte{'S', 'N', 'O', 'H'}, kinds: []string{"p1", "p2", "sub"}},
 		{name: "manual.N2.F1.S1", n: 2, bound: vrt.Budget{F: 1, S: 1, Total: 2}, faults: base, keep: []bool{true}, phases: []byte{'S', 'N', 'O'}, kinds: []string{"p1", "p2", "sub"}, manual: true},
 		{name: "N1.F2.noconnack", n: 1, bound: vrt.Budget{F: 2}, faults: env.FaultSet{NoConnAck: true, LostClose: true, OnlyTypes: map[byte]bool{env.CONNECT: true, env.PUBLISH: true, env.SUBSCRIBE: true}}, keep: []bool{true}, phases: []byte{'B', 'S'}, tmo: 3 * time.Second, kinds: all},
+		// the three most expensive quick families last (a time budget cuts from the end)
+		{name: "N2.F2", n: 2, bound: vrt.Budget{F: 2}, faults: env.FaultSet{LostClose: true, AckLost: true, ConnRefuse: true}, keep: []bool{true}, phases: []byte{'B', 'H'}, kinds: []string{"p1", "p2"}},
+		{name: "N2.F1.P1.S1", n: 2, bound: vrt.Budget{F: 1, P: 1, S: 1, Total: 2}, faults: env.FaultSet{LostClose: true, AckLost: true}, keep: []bool{true}, phases: []byte{'B', 'N'}, kinds: []string{"p1", "p2"}},
+		{name: "N2.F2.eof-write-errors", n: 2, bound: vrt.Budget{F: 2}, faults: env.FaultSet{WriteErr: true, LostClose: true}, keep: []bool{true}, phases: []byte{'B', 'S', 'N'}, kinds: []string{"p1", "p2", "sub", "unsub"}, eofw: true},
 	}
 	quickN := len(fams) // the thorough tier runs the quick families first, unchanged, then the deeper ones
 	if c.Thorough() {
@@ -148,7 +150,6 @@ func runC01(c *Ctx) {
 	if sample != nil {
 		c.Sample(map[string]any{"workload": rcName(sample.cfg.Reqs), "faults": sample.broker.FaultLog, "wire": sample.net.TraceStrings()})
 	}
-	c01SwapDuringTask(c)
 }
 
 // c01SwapDuringTask: a bare RetryClient whose application installs the next connection (SetClient, then
